@@ -204,7 +204,11 @@ func (in *Interp) lazyInit(pkg *ssa.Package) {
 	}
 	saveT := in.tolerant
 	in.tolerant = true
+	// initialisers conceptually ran before main: their accesses are not subject to the race monitor
+	saveM := in.sch.multi
+	in.sch.multi = false
 	defer func() {
+		in.sch.multi = saveM || in.sch.multi
 		in.tolerant = saveT
 		if r := recover(); r != nil {
 			if pe, ok := r.(pathEnd); ok && (pe.kind == "unsupported") {
